@@ -43,7 +43,9 @@ CFG = {
     "C02": dict(pkg="core", test="^TestC02$", shards=(1, 1), checks=(1, 1)),
     "C03": dict(pkg="core", test="^TestC03$", shards=(1, 1), checks=(1, 1)),
     "C04": dict(pkg="core", test="^TestC04$", shards=(8, 16), checks=(600, 12000)),
-    "C05": dict(pkg="core", test="^TestC05", shards=(8, 16), checks=(8000, 40000), oracle_selfcheck=True),
+    "C05": dict(pkg="core", shards=(8, 16), oracle_selfcheck=True, tests=[
+        dict(test="^TestC05Step$", checks=(8000, 40000)),
+        dict(test="^TestC05Soup$", checks=(40000, 2000000))]),
     "C06": dict(pkg="core", test="^TestC06", shards=(8, 16), checks=(1500, 40000), steps=(60, 80)),
     "C07": dict(pkg="core", test="^TestC07$", shards=(8, 16), checks=(1200, 40000)),
     "C08": dict(pkg="core", test="^TestC08$", shards=(8, 16), checks=(5000, 300000)),
